@@ -252,10 +252,24 @@ class _Inliner:
                   and isinstance(target, ast.Name) and target.id not in arg_names)
         if direct:
             ren[ret.value.id] = target.id
-        out: list[ast.stmt] = [ast.Assign(targets=[ast.Name(id=ren[pn], ctx=ast.Store())], value=copy.deepcopy(a))
-                               for pn, a in zip(params, call.args)]
-        out += [_Rename(ren).visit(s) for s in body]
+        # a parameter that the helper never rebinds and whose argument is a plain name / attribute path (no call, no
+        # subscript: evaluating it again is the same value) is replaced by the argument; the others are assigned
+        rebound = {x.id for s in body for x in ast.walk(s) if isinstance(x, ast.Name) and isinstance(x.ctx, (ast.Store, ast.Del))}
+        subst: dict[str, ast.expr] = {}
+        out: list[ast.stmt] = []
+        for pn, a in zip(params, call.args):
+            plain = all(isinstance(x, (ast.Name, ast.Attribute, ast.Load)) for x in ast.walk(a))
+            if plain and pn not in rebound:
+                subst[ren[pn]] = copy.deepcopy(a)
+            else:
+                out.append(ast.Assign(targets=[ast.Name(id=ren[pn], ctx=ast.Store())], value=copy.deepcopy(a)))
+        body = [_Rename(ren).visit(s) for s in body]
+        if subst:
+            body = [_Subst(subst).visit(s) for s in body]
+        out += body
         val = _Rename(ren).visit(copy.deepcopy(ret.value)) if ret is not None and ret.value is not None else ast.Constant(value=None)
+        if subst:
+            val = _Subst(subst).visit(val)
         if is_return:
             out.append(ast.Return(value=val))
         elif target is not None and not direct:
@@ -297,6 +311,38 @@ def _inlined(cls: ast.ClassDef, name: str, keep: set[str] = frozenset()) -> ast.
     fn = copy.deepcopy(_find_method(cls, name))
     fn.body = _Inliner(cls, set(keep) | {name}).stmts(fn.body)
     return fn
+
+
+def _desugar(fn: ast.AST) -> None:
+    """Top-level `x = [e for v in it if c]` / `x = sorted(y, key=…, reverse=…)` become the loop / the in-place sort they
+    mean (`x = []; for v in it: if c: x.append(e)` resp. `x = list(y)`-free `x.sort(…)` when y is x or a fresh list)."""
+    out: list[ast.stmt] = []
+    for s in fn.body:
+        tg = None
+        if isinstance(s, ast.Assign) and len(s.targets) == 1 and isinstance(s.targets[0], ast.Name):
+            tg = s.targets[0]
+        elif isinstance(s, ast.AnnAssign) and isinstance(s.target, ast.Name) and s.value is not None:
+            tg = s.target
+        v = getattr(s, "value", None)
+        if tg is not None and isinstance(v, ast.ListComp) and len(v.generators) == 1 and not v.generators[0].is_async:
+            g = v.generators[0]
+            app: ast.stmt = ast.Expr(ast.Call(func=ast.Attribute(value=ast.Name(id=tg.id, ctx=ast.Load()), attr="append", ctx=ast.Load()),
+                                              args=[v.elt], keywords=[]))
+            body: list[ast.stmt] = [app]
+            for c in reversed(g.ifs):
+                body = [ast.If(test=c, body=body, orelse=[])]
+            out.append(ast.Assign(targets=[ast.Name(id=tg.id, ctx=ast.Store())], value=ast.List(elts=[], ctx=ast.Load())))
+            out.append(ast.For(target=g.target, iter=g.iter, body=body, orelse=[]))
+        elif tg is not None and isinstance(v, ast.Call) and _src(v.func) == "sorted" and len(v.args) == 1 \
+                and isinstance(v.args[0], ast.Name) and v.args[0].id == tg.id:
+            out.append(ast.Expr(ast.Call(func=ast.Attribute(value=ast.Name(id=tg.id, ctx=ast.Load()), attr="sort", ctx=ast.Load()),
+                                         args=[], keywords=v.keywords)))
+        else:
+            out.append(s)
+    for x in out:
+        ast.fix_missing_locations(x)
+    fn.body = out
+
 
 
 # ----------------------------------------------------------------------------- C14
@@ -805,6 +851,26 @@ def _single_assignments(fn: ast.AST) -> dict[str, ast.expr]:
     return {k: v for k, v in value.items() if count.get(k) == 1}
 
 
+# ----------------------------------------------------------------------------- fallback on the translation
+def _from_translation(fn: str, tree: ast.Module, first: Exception) -> dict[str, str]:
+    """The shape-bound matchers below refused the code (`first`).  `results_loops.py` translates the same functions
+    statement by statement into a decision tree; read the wanted expressions off its leaves.  If that fails as well
+    the original refusal stands."""
+    import sys
+    here = str(pathlib.Path(__file__).resolve().parent)
+    if here not in sys.path:
+        sys.path.insert(0, here)
+    try:
+        import results_loops  # noqa: PLC0415  (imports this module under its plain name; only used as a library here)
+        out = getattr(results_loops, fn)(tree)
+    except Exception:  # pylint: disable=broad-except
+        raise first from None
+    if fn == "pv_loop_exprs":
+        rev = results_loops._pv(tree)["pvSortReverse"]  # pylint: disable=protected-access
+        out = dict(out, pvSortDescending=rev)
+    return out
+
+
 # ----------------------------------------------------------------------------- C15 battery
 def _battery(tree: ast.Module) -> tuple[dict[str, str], dict[str, str]]:
     cls = _find_class(tree, "BatteryManager")
@@ -829,8 +895,13 @@ def _battery(tree: ast.Module) -> tuple[dict[str, str], dict[str, str]]:
             if isinstance(s.op, ast.Add) and _canon(s.value, env) == f"{dist_param}[{inv}]":
                 return "power"
             raise Unsupported(f"_parse_result: `{_src(s)}`")
+        bats = (f"self._inv_bats_map[{inv}]", f"set(self._inv_bats_map[{inv}])")
         if isinstance(s, ast.Expr) and isinstance(s.value, ast.Call) and _src(s.value.func).split(".")[0] == set_var:
-            if _src(s.value.func) == f"{set_var}.update" and [_canon(a, env) for a in s.value.args] == [f"self._inv_bats_map[{inv}]"]:
+            if _src(s.value.func) == f"{set_var}.update" and len(s.value.args) == 1 and _canon(s.value.args[0], env) in bats:
+                return "set"
+            raise Unsupported(f"_parse_result: `{_src(s)}`")
+        if isinstance(s, ast.AugAssign) and _src(s.target) == set_var:
+            if isinstance(s.op, ast.BitOr) and _canon(s.value, env) in bats:
                 return "set"
             raise Unsupported(f"_parse_result: `{_src(s)}`")
         if any(isinstance(x, ast.Name) and isinstance(x.ctx, ast.Store) and x.id in (power_var, set_var) for x in ast.walk(s)) \
@@ -844,6 +915,14 @@ def _battery(tree: ast.Module) -> tuple[dict[str, str], dict[str, str]]:
     if inits.get(power_var) not in ("0.0", "0") or inits.get(set_var) != "set()":
         raise Unsupported("_parse_result: accumulators must start at 0.0 / set()")
     # ---- _distribute_power
+    try:
+        exprs = _battery_fields(cls)
+    except Unsupported as first:
+        exprs = _from_translation("battery_field_exprs", tree, first)
+    return handling, exprs
+
+
+def _battery_fields(cls: ast.ClassDef) -> dict[str, str]:
     dp = _inlined(cls, "_distribute_power")
     request, dist = dp.args.args[1].arg, dp.args.args[2].arg
     inline = _single_assignments(dp)
@@ -870,7 +949,7 @@ def _battery(tree: ast.Module) -> tuple[dict[str, str], dict[str, str]]:
         "batOkSucceeded": ex.tr(ok_[0]["succeeded_power"]),
         "batOkExcess": ex.tr(ok_[0]["excess_power"]),
     }
-    return handling, exprs
+    return exprs
 
 
 # ----------------------------------------------------------------------------- C15 PV
@@ -930,21 +1009,39 @@ def _pv(tree: ast.Module) -> tuple[dict[str, str], dict[str, str]]:
     if (len(made) != 1 or not _src(loops[0].iter).endswith(".items()") or tasks_name == allocs
             or ".set_power(" not in _src(made[0].args[0]) or f"{allocs}.items()" not in _src(sp)):
         raise Unsupported("_set_api_power: one set_power task per allocation expected")
+    try:
+        exprs = _pv_fields(sp, request, remaining, failed_name, failed_set, succ_set, pf, ok_)
+    except Unsupported as first:
+        exprs = _from_translation("pv_field_exprs", tree, first)
+    exprs["pvTargetInit"] = target_init
+    try:
+        exprs.update(_pv_loop(cls))
+    except Unsupported as first:
+        exprs.update(_from_translation("pv_loop_exprs", tree, first))
+    return handling, exprs
+
+
+def _pv_fields(sp: ast.AST, request: str, remaining: str, failed_name: str, failed_set: str, succ_set: str,
+               pf: list, ok_: list) -> dict[str, str]:
     roles = {f"{request}.power": "requestPower", f"{request}.power.as_watts()": "requestPower", remaining: "remaining",
              failed_name: "failed", "self._target_power": "target"}
     inline = {k: v for k, v in _single_assignments(sp).items() if k not in (failed_name, failed_set, succ_set)}
     ex = Expr(roles, inline)
     _result_branches(sp, failed_set, "_set_api_power")
     exprs = {
-        "pvTargetInit": target_init,
         "pvPfSucceeded": ex.tr(pf[0]["succeeded_power"]),
         "pvPfFailed": ex.tr(pf[0]["failed_power"]),
         "pvPfExcess": ex.tr(pf[0]["excess_power"]),
         "pvOkSucceeded": ex.tr(ok_[0]["succeeded_power"]),
         "pvOkExcess": ex.tr(ok_[0]["excess_power"]),
     }
-    # ---- distribute_power: the water-filling loop
+    return exprs
+
+
+def _pv_loop(cls: ast.ClassDef) -> dict[str, str]:
+    exprs: dict[str, str] = {}
     dp = _inlined(cls, "distribute_power")
+    _desugar(dp)
     req = dp.args.args[1].arg
     rem_names = [s.targets[0].id for s in dp.body if isinstance(s, ast.Assign) and isinstance(s.targets[0], ast.Name)
                  and _src(s.value) == f"{req}.power"]
@@ -1010,7 +1107,7 @@ def _pv(tree: ast.Module) -> tuple[dict[str, str], dict[str, str]]:
         raise Unsupported("distribute_power: unexpected statements in the allocation loop")
     exprs.update({"pvSkip": skip, "pvShare": share_expr, "pvAlloc": alloc_expr,
                   "pvSortDescending": "true" if descending else "false"})
-    return handling, exprs
+    return exprs
 
 
 # ----------------------------------------------------------------------------- C15 per-request instance state
